@@ -312,3 +312,6 @@ class C13(Prop):
 
 
 PROP = C13()
+
+PROP.rule += (" Strata added while closing seeded changes (DESIGN section 10): "
+              "replace by position, moved item objects, repeated ~Parameter blocks, names with '_', '%' and case-quirk letters, np.nan values; invariants also checked right after every read.")
